@@ -1,15 +1,20 @@
 #!/bin/bash
-# try_mutant.sh <seeded id> <check> [<check>...] : apply seeded/<id>/patch.diff to /repo, run the quick checks, revert.
+# try_mutant.sh <seeded id> <check> [<check>...] : run the quick (or $TIER) checks against seeded/<id>/patch.diff.
+# The change is applied in a scratch worktree of /repo HEAD (outside /repo and /verif) and the checks are pointed at it with
+# VERIF_REPO, so /repo itself is never modified; evidence/replays of trial runs go to build/ (VERIF_NO_EVIDENCE=1).
 # Prints one line per check: DETECTED / missed.
 set -u
 VERIF=$(cd "$(dirname "$0")/.." && pwd); ID=$1; shift
-[ -z "$(git -C /repo status --porcelain --untracked-files=no)" ] || { echo "/repo has uncommitted changes"; exit 2; }
-git -C /repo apply "$VERIF/seeded/$ID/patch.diff" || exit 2
-trap 'git -C /repo checkout -- . ' EXIT
+WT=$(mktemp -d /tmp/try.XXXXXX); rmdir "$WT"
+git -C /repo worktree add --detach "$WT" HEAD -q || exit 2
+trap 'git -C /repo worktree remove --force "$WT" >/dev/null 2>&1; rm -rf "$WT"' EXIT
+git -C "$WT" apply "$VERIF/seeded/$ID/patch.diff" || { echo "$ID: patch does not apply"; exit 2; }
 TIER=${TIER:-quick}
 for c in "$@"; do
-  out=$(cd "$VERIF" && VERIF_NO_EVIDENCE=1 bin/vcheck "$c" --tier $TIER 2>&1); rc=$?
+  out=$(cd "$VERIF" && VERIF_REPO="$WT" VERIF_NO_EVIDENCE=1 bin/vcheck "$c" --tier $TIER 2>&1); rc=$?
   nviol=$(echo "$out" | grep -c '^VIOLATION')
-  first=$(echo "$out" | grep -m1 '^VIOLATION' | cut -c1-260)
-  if [ $rc -eq 1 ] && [ $nviol -gt 0 ]; then echo "$ID vs $c: DETECTED ($nviol lines) $first"; else echo "$ID vs $c: missed (rc=$rc) $(echo "$out" | tail -1 | cut -c1-200)"; fi
+  first=$(echo "$out" | grep -m1 '^VIOLATION' | sed 's/^VIOLATION property=[A-Z0-9]* replay=[^ ]*  # //' | cut -c1-230)
+  if [ $rc -eq 1 ] && [ $nviol -gt 0 ]; then echo "$ID vs $c: DETECTED ($nviol lines) $first"; verdict=DETECTED; else echo "$ID vs $c: missed (rc=$rc) $(echo "$out" | tail -1 | cut -c1-200)"; verdict="missed(rc=$rc)"; fi
+  # record (latest verdict per pair wins)
+  R="$VERIF/seeded/results.tsv"; touch "$R"; grep -v -P "^$ID\t$c\t" "$R" > "$R.tmp" || true; printf "%s\t%s\t%s\t%s\n" "$ID" "$c" "$verdict" "$first" >> "$R.tmp"; sort "$R.tmp" > "$R"; rm -f "$R.tmp"
 done
